@@ -29,13 +29,14 @@ def _design(ctx, q, w):
     if not q:
         ctx.model_check("Secrecy", "MC_Secrecy_fixed.cfg", workers=w)
         ctx.model_check("Secrecy", "MC_Secrecy_big.cfg", timeout=1500, workers=w)
+        ctx.model_check("Secrecy", "MC_Secrecy_two.cfg", timeout=1500, workers=w)     # two nodes, echo of the other's bundles
 
 
 def run(ctx, monitors=MONITORS):
     q = ctx.quick
     w = int(os.environ.get("VERIF_TLC_WORKERS", "0")) or None
     # 1. spec -> code: file walks + call plan
-    n = 6 if q else 40
+    n = 6 if q else 120
     sim = ctx.model_check("Sim_Secrecy", "Sim_Secrecy.cfg", workers=1, simulate="num=%d" % n, depth=400,
                           seed=ctx.seed, timeout=600)
     walks, plan = [], None
@@ -118,9 +119,12 @@ def run(ctx, monitors=MONITORS):
             det = a["detail"]
             # signature: monitor + emitter/file + encoding class of the first hit (never node ids or seeds)
             cls = det.split(":")[0] if a["mon"] != "SecretFileOwnerOnly" else det
+            if a["mon"] == "SecretFileOwnerOnly":
+                text = "file %s holds a private key / share and is %s" % (a["where"], det)
+            else:
+                text = "%s carries %s" % (a["where"], det)
             ctx.alarm({"stage": "secrecy", "mon": a["mon"], "where": a["where"], "detail": cls},
-                      "secrecy: monitor %s failed at trace line %s: %s carries %s (scenario %s)"
-                      % (a["mon"], a["line"], a["where"], det, a["scenario"]))
+                      "secrecy: monitor %s failed at trace line %s: %s (scenario %s)" % (a["mon"], a["line"], text, a["scenario"]))
         elif a["mon"] in DRIFT:
             drift.append(a)
     if drift:
